@@ -102,6 +102,17 @@ func c15(repo string, out *fg.Out) error {
 	if !ok {
 		return fmt.Errorf("UnmaskStringLiterals: Replace count is not a literal")
 	}
+	// restoration order: the masks must be walked first-to-last (`for _, mask := range masks`) and the
+	// Replace / ReplaceAll calls must sit in that loop.
+	orderForward := false
+	ast.Inspect(ud, func(n ast.Node) bool {
+		if rs, ok := n.(*ast.RangeStmt); ok && mf.Text(rs.X) == "masks" {
+			if len(fg.CallsNamed(rs.Body, "ReplaceAll")) == 1 && len(fg.CallsNamed(rs.Body, "Replace")) == 1 {
+				orderForward = true
+			}
+		}
+		return true
+	})
 	identGuard := false
 	ast.Inspect(ud, func(n ast.Node) bool {
 		if is, ok := n.(*ast.IfStmt); ok && strings.Contains(mf.Text(is.Cond), "Identifier") {
@@ -174,6 +185,7 @@ func c15(repo string, out *fg.Out) error {
 	}
 	fmt.Fprintln(w, "]")
 	fmt.Fprintf(w, "/-- count argument of strings.Replace for string-class masks in UnmaskStringLiterals -/\ndef unmaskStrCount : Int := %s\n", cnt.Value)
+	fmt.Fprintf(w, "/-- UnmaskStringLiterals walks the masks first-to-last (`for _, mask := range masks` around both replace calls) -/\ndef unmaskFirstToLast : Bool := %v\n", orderForward)
 	fmt.Fprintln(w, "/-- identifier-class masks are restored with strings.ReplaceAll (guarded by `mask.Identifier`) -/\ndef unmaskIdentAll : Bool := true")
 	fmt.Fprintf(w, "/-- every `identPlaceholders[k]` in MaskStringLiterals has k = `original` = `sql[start:i]` (index expressions found: %s) -/\ndef identDedupKeyIsTokenText : Bool := %v\n", strings.Join(keyExprs, ", "), keyIsOriginal && origIsSlice)
 	fmt.Fprintln(w, "/-- (function of internal/api/query.go that calls stripSQLComments, MaskStringLiterals is called before every such call) -/")
